@@ -790,6 +790,39 @@ def run(prog, ctx):
                 res.undecided += 1
         else:
             res.undecided += 1
+    # re-seeding in place: a `&mut self` method of the XXH64 state that takes a u64 and stores the accumulators has to leave them as
+    # the seeding constructor does for that value (an accumulator filled from the *old* seed only shows once a full stripe is hashed)
+    xx_adt = prog.adts.get("hash::xxhash::XxHash64")
+    if xx_adt:
+        xnames = [n for n, t in xx_adt["variants"][0]["fields"]]
+        for g_ in sorted((g for g in prog.fns.values() if not g.promoted and g.owner == "hash::xxhash::XxHash64" and g.argc == 2
+                          and (g.local_ty(1) or "").startswith("&mut") and g.local_ty(2) == "u64"), key=lambda g: g.id):
+            stored = set(fld for (ff, bb, kind, place, rv, span, adt, fld) in sym.field_stores(prog, adt="hash::xxhash::XxHash64", fns=[g_]) if kind == "assign")
+            if not ({"v1", "v2", "v3", "v4"} & stored) or not {"v1", "v2", "v3", "v4"} <= set(xnames):
+                continue
+            n_k += 1
+            sg_ = Sym(prog, g_)
+            pn_ = g_.local_name(2) or "seed"
+            verdict, wit = None, "accumulators not evaluable"
+            try:
+                for _ in range(8):
+                    sd, old_sd = rnd.getrandbits(64), rnd.getrandbits(64)
+                    want = {"v1": (sd + P1 + P2) & M64, "v2": (sd + P2) & M64, "v3": sd, "v4": (sd - P1) & M64}
+                    env = {"@prog": prog, pn_: sd, "self.seed": old_sd, "self.v1": 11, "self.v2": 22, "self.v3": 33, "self.v4": 44,
+                           "self.total_len": 5, "self.buffer_len": 5}
+                    for k_, w_ in want.items():
+                        ev = sg_.field_exit_value_seq(k_)
+                        if ev is None:
+                            raise formula.Uneval(k_)
+                        got = formula.evaluate(ev, env)
+                        if verdict is None:
+                            verdict = True
+                        if got != w_ and verdict is not False:
+                            verdict, wit = False, "after %s(%#x) on a state seeded with %#x accumulator %s is %#x, a fresh state for that seed has %#x" % (g_.item_name, sd, old_sd, k_, got, w_)
+            except (formula.Uneval, TypeError, KeyError):
+                if verdict is not False:
+                    verdict = None
+            res.tri(verdict, "C16.K", "C16.K|xx-reseed|%s" % g_.item_name, "XXH64 %s: %s" % (g_.id, wit), g_.id)
     res.rule("C16.K", n_k, 6, "mixing functions compared with the reference algorithms")
 
     # ---------------- C16.D derivations
